@@ -309,6 +309,12 @@ impl SystemHardware {
         PIN_STATES.with_borrow(|states| states.get(hardware_id).is_some())
     }
 
+    /// Builds an instance over a caller-supplied platform, for out-of-tree verification harnesses.
+    #[cfg(folo_verif)]
+    pub(crate) fn verif_from_platform(platform: PlatformFacade) -> Self {
+        Self::from_platform(platform)
+    }
+
     fn from_platform(platform: PlatformFacade) -> Self {
         let hardware_id = HardwareId::next();
         let all_pal_processors = platform.get_all_processors();
